@@ -4,6 +4,7 @@ import (
 	"encoding/binary"
 	"encoding/hex"
 	"fmt"
+	"os"
 	"runtime"
 	"strings"
 	"testing"
@@ -155,6 +156,8 @@ func genFrame(rt *rapid.T) Frame {
 	}
 	f.B = hex.EncodeToString(b)
 	f.Chunk = rapid.SampledFrom([]int{0, 0, 1, 1, 8, 100}).Draw(rt, "chunk")
+	// floods: the same frame back to back (queues inside the stack overflow)
+	f.Rep = rapid.SampledFrom([]int{0, 0, 0, 0, 0, 0, 0, 0, 1, 11, 30, 64}).Draw(rt, "rep")
 	return f
 }
 
@@ -248,5 +251,8 @@ func runMutOnce(c Case) *evid.Failure {
 }
 
 func TestBarrage(t *testing.T) {
+	if os.Getenv("C07_FUZZ_UNIT") != "" && !evid.ReplayMode() {
+		t.Skip() // hosted by the fuzz unit only to replay what the campaign found
+	}
 	evid.Run(t, evid.Spec[Case]{Name: "barrage", Gen: genCase, Run: runMut})
 }
